@@ -40,7 +40,11 @@ def check_seq(seq, names, rec, resolve):
     try:
         res = resolve(seq)
     except Exception as e:
+        # "for every citation list resolved with the default resolvers" there is a mapping: lists of
+        # citations that get_citations itself returned (or copies of them) are in that domain
         rec.count("resolve_raised:" + type(e).__name__)
+        rec.violation("C06.no_mapping", case, observed=dict(exception=type(e).__name__, message=str(e)[:200],
+                                                             list=R.describe(seq)[:12]))
         return None
     rec.ev()
     nf = sum(1 for c in seq if isinstance(c, FullCitation))
